@@ -63,10 +63,18 @@ def sc_conf_identity():
     def make():
         k = next(_K)
         kw = dict(claw_skip_package_names=(f'pkg{k}',), is_debug=False)
-        return [lambda: BeartypeConf(**kw), lambda: BeartypeConf(**kw)]
+
+        def body():
+            # construct and *use* the configuration at once (an object published before it is completely built is only
+            # visible to a thread that reads it straight away)
+            c = BeartypeConf(**kw)
+            return c, (c.strategy.name, c.is_debug, c.claw_skip_package_names, len(repr(c)) > 10, hash(c) == hash(c), c == c)
+        return [body, body]
 
     def judge(res):
-        a, b = res
+        (a, ua), (b, ub) = res
+        if ua != ub:
+            return f'two threads read different contents from equal configurations: {ua} vs {ub}'
         if a is not b:
             return 'BeartypeConf(**kw) built by two threads are distinct objects'
     return make, judge
@@ -212,6 +220,41 @@ def sc_beartyping_vs_lookup():
     return make, judge
 
 
+def sc_beartyping_vs_all():
+    """with beartyping(A): pass  ||  beartype_all(B), from a pristine registry.  Orders of {enter, exit, all(B)}: all(B) first or
+    last -> it succeeds and B is registered afterwards; all(B) inside the block -> it conflicts with A and nothing stays
+    registered.  A successful beartype_all(B) whose registration is gone afterwards is a lost registration."""
+    from beartype.claw import beartyping, beartype_all
+    from beartype.claw._package.clawpkgtrie import get_package_conf_or_none
+    from beartype.roar import BeartypeClawHookException
+    from . import c06
+    C = _STATE['C6']
+
+    def make():
+        c06.restore(_STATE['pristine'])
+
+        def t1():
+            with beartyping(conf=C['A']):
+                pass
+            return 'done'
+
+        def t2():
+            try:
+                beartype_all(conf=C['B'])
+                return 'registered'
+            except BeartypeClawHookException:
+                return 'conflict'
+        return [t1, t2]
+
+    def judge(res):
+        after = c06.conf_id(get_package_conf_or_none('zzz'))
+        if res[1] == 'registered' and after != 'B':
+            return f'lost registration: beartype_all(B) returned successfully but afterwards the global configuration is {after}'
+        if res[1] == 'conflict' and after is not None:
+            return f'beartype_all(B) raised a conflict yet afterwards the global configuration is {after}'
+    return make, judge
+
+
 def sc_pool():
     from beartype._util.cache.pool.utilcachepoolinstance import acquire_instance, release_instance
 
@@ -246,6 +289,7 @@ SCENARIOS = {
     'decorate | check | decorate': sc_decorate_and_check,
     'beartype_package(a) | beartype_package(b) | lookup': sc_register_packages,
     'beartyping(A) | lookup': sc_beartyping_vs_lookup,
+    'beartyping(A) | beartype_all(B)': sc_beartyping_vs_all,
     'pooled list x3': sc_pool,
 }
 
